@@ -204,3 +204,15 @@ func ownerOf(b ssa.Value) string {
 	}
 	return t.String()
 }
+
+// NewSlicerLeavesCall returns the leaves of v (intra-procedural slice) that are results of a call to ref.
+func NewSlicerLeavesCall(p *ir.Program, v ssa.Value, ref string) []Leaf {
+	s := &Slicer{P: p, MaxDepth: 0}
+	var out []Leaf
+	for _, l := range s.Leaves(v) {
+		if l.Kind == "call" && l.Ref == ref {
+			out = append(out, l)
+		}
+	}
+	return out
+}
